@@ -24,6 +24,7 @@ def near(rng, x):
     r = rng.random()
     if math.isinf(x) or math.isnan(x):
         return x
+    if x == 0 and r < 0.3: return -x          # the other zero: -0.0 >= +0.0 holds, total_cmp orders them
     if r < 0.4: return x
     if r < 0.6: return ulp(x, 1) if x >= 0 else ulp(x, -1) if fb(x) & (1 << 63) == 0 else ulp(x, 1)
     if r < 0.8 and x != 0: return ulp(x, -1)
@@ -118,9 +119,41 @@ FLOCQ_AXIOMS = ("ClassicalDedekindReals.sig_not_dec", "ClassicalDedekindReals.si
                 "FunctionalExtensionality.functional_extensionality_dep", "Classical_Prop.classic")
 
 
+def unfb(b):
+    return struct.unpack("<d", struct.pack("<Q", b))[0]
+
+
+def member_oracle(case, impl, spec):
+    """the counting-law checker (proved, extracted) first; then, for observation collections, the DOCUMENTED member predicate itself,
+    evaluated independently with the host's IEEE-754 doubles: effect_observed(thr, eff) = observation >= thr && observed_effect == eff
+    (protocols/observable/mod.rs). The checker recomputes the aggregates from the member verdicts the implementation reports, so a
+    wrong member verdict is only seen here (and by the model)."""
+    if spec != "checker:1":
+        return f"proved checker rejected impl output {impl[:300]!r}: {spec}"
+    if case.prefix[0] != 2:
+        return None
+    try:
+        n = case.prefix[2]
+        mem = {case.prefix[3 + 3 * i]: (unfb(case.prefix[4 + 3 * i]), unfb(case.prefix[5 + 3 * i])) for i in range(n)}
+        toks = [int(x) for x in impl.split()]; p = 0
+        for q in case.ops:
+            thr, tgt = unfb(q[0]), unfb(q[1])
+            for _ in range(n):
+                i, v = toks[p], toks[p + 1]; p += 2
+                o, e = mem[i]
+                want = 1 if (o >= thr and e == tgt) else 0
+                if v != want:
+                    return (f"member {i}: effect_observed(threshold {thr!r}, effect {tgt!r}) on observation {o!r} with observed effect {e!r} answered {v}; "
+                            f"the documented predicate (observation >= threshold and observed_effect == effect) gives {want}")
+            p += 4
+    except (KeyError, IndexError, ValueError):
+        return None
+    return None
+
+
 def mk_diff(run, bins):
     return Differential(run, bins, lambda c: "collections_model_entry", None, check_entry=lambda c: "collections_check_entry",
-                        nontrivial=lambda c: c.prefix[2] >= 2)
+                        oracle=member_oracle, nontrivial=lambda c: c.prefix[2] >= 2)
 
 
 def main():
